@@ -598,10 +598,11 @@ def run_c07(ctx):
             advs = [a for a in advs if not re.match(r"many-named-groups-(6|7)\d{4}", a[1])]
         def one(a):
             k, name = a[0], a[1]
-            rc, out = sh("ulimit -s 8192; timeout 200 %s adv %s" % (hb, k), 230)
+            rc, out = sh("ulimit -s 8192; ulimit -v 3145728; timeout 200 %s adv %s" % (hb, k), 230)
             m = re.search(r"END \d+ \S+ (\S+) (\d+)ms", out)
             if m: return (name, m.group(1), int(m.group(2)), a[2], a[3])
             if "stack overflow" in out: return (name, "STACK-OVERFLOW", 0, a[2], a[3])
+            if "memory allocation of" in out: return (name, "OUT-OF-MEMORY(3GiB)", 0, a[2], a[3])
             if rc == 124: return (name, "TIMEOUT", 200000, a[2], a[3])
             return (name, "ABORT(rc=%d)" % rc, 0, a[2], a[3])
         with concurrent.futures.ThreadPoolExecutor(max_workers=NCPU) as ex:
@@ -638,7 +639,7 @@ def run_c07(ctx):
         report_violation(ctx, path, no_input=True)
     nth = len(fr["theorems"])
     cov = dict(evaluations=len(results) + sum(fuzz.values()), distinct_nontrivial=len(results) + fuzz.get("ok", 0), programs=len(results) + sum(fuzz.values()), disagreements_checked=0,
-               rule="203 size/shape adversaries (alternations up to 3*10^5, nesting up to 10^5, 65535/65536/70000 groups and loops, 20-digit counts, unterminated constructs, raw surrogates), each in its own process under an 8 MiB stack and a 30 s limit; plus token-level random strings in-process; non-trivial = adversaries + accepted token strings",
+               rule="%d size/shape adversaries (alternations up to 3*10^5, nesting up to 10^5, 65535/65536/70000 groups and loops, 20-digit counts, nests of small counts up to depth 40, unterminated constructs, raw surrogates), each in its own process under an 8 MiB stack, 3 GiB of address space and a 200 s limit;" % len(results) + " plus token-level random strings in-process; non-trivial = adversaries + accepted token strings",
                samples=[dict(name=x[0], outcome=x[1], ms=x[2]) for x in results[:6]], obligations=max(nth, 1), discharged=fr["discharged"] if nth else 0,
                checker_cmd="rvharness adv <k> (one process per adversary); rvharness advfuzz", trusted_base=TRUSTED_BASE)
     write_evidence(ctx, "proof" if nth and fr["discharged"] == nth and not broken else "exploration", cov, ["real stack and heap consumption are runtime facts; the models carry panic sites as explicit outcomes"])
